@@ -311,11 +311,46 @@ func c19Events(nlive int) []c19ev {
 			if t.Dims() < 1 {
 				return -1, nil, false
 			}
-			sl := make([]tensor.Slice, 1, 3)
-			sl[0] = tensor.S(0, 1)
+			// a prefix of a longer list the caller still needs: the entries behind the prefix are the caller's too
+			whole := []tensor.Slice{tensor.S(0, 1), tensor.S(0, 1), tensor.S(0, 1, 1), tensor.S(0, 1)}
+			keep := append([]tensor.Slice{}, whole...)
+			sl := whole[:1]
 			t.Slice(sl...)
-			if sl[0] == nil || len(sl) != 1 {
-				return -1, [][]int{{-999}}, true
+			for k := range whole {
+				if whole[k] != keep[k] {
+					return -1, [][]int{{-999}}, true
+				}
+			}
+			// SliceInto takes the same kind of list
+			if t.Dims() >= 2 {
+				into := tensor.New(tensor.Of(t.Dtype()), tensor.WithShape(1))
+				t.SliceInto(into, whole[:1]...)
+				for k := range whole {
+					if whole[k] != keep[k] {
+						return -1, [][]int{{-999}}, true
+					}
+				}
+			}
+			return -1, nil, true
+		})
+		un("ScalarOpsLen1", func(w *c19world, t *tensor.Dense) (int, [][]int, bool) {
+			// the scalar forms of the comparisons, min/max and arithmetic between a ONE-element tensor and a scalar: they have
+			// their own early-return paths around the pooled scalar header
+			if i != 0 {
+				return -1, nil, false
+			}
+			one := func() *tensor.Dense { return tensor.New(tensor.WithShape(1), tensor.WithBacking([]float64{3})) }
+			for _, f := range []func(a, b interface{}, opts ...tensor.FuncOpt) (tensor.Tensor, error){tensor.Gt, tensor.Gte, tensor.Lt, tensor.Lte, tensor.ElEq, tensor.ElNe, tensor.MaxBetween, tensor.MinBetween, tensor.Add, tensor.Sub, tensor.Mul, tensor.Div, tensor.Pow, tensor.Mod} {
+				f := f
+				for _, g := range []func(){
+					func() { f(one(), 2.0) },
+					func() { f(2.0, one()) },
+					func() { f(one(), 2.0, tensor.AsSameType()) },
+					func() { f(2.0, one(), tensor.UseUnsafe()) },
+					func() { f(one(), 2.0, tensor.WithReuse(one())) },
+				} {
+					call(func() error { g(); return nil }) // a panicking form (recorded under C07) must not hide the others
+				}
 			}
 			return -1, nil, true
 		})
@@ -881,6 +916,9 @@ func c19Explore(r *core.Run, label string, evs []c19ev, depth, maxStates int) {
 							if bp := intsBase(s); bp != 0 && seenPtr[bp] {
 								add("pool-alias", "a caller-owned slice is in the ints free list")
 							}
+						}
+						if _, dup := tensor.VerifHeaderPoolDup(); dup > 0 {
+							add("double-return", "a scalar header is in the header pool twice: two later scalar operands would share it")
 						}
 						if len(kinds) > 0 {
 							continue // do not expand states reached through a violating event
